@@ -9,6 +9,9 @@ ROLES = {"Player 1": "max", "Player 2": "min", "Probabilistic": "avg"}
 def role_classes(ctx):
     """role -> class name, from the repository's own dispatch (init_states)."""
     pc = ctx.cg.player_class
+    if len(pc) != 3 or len(set(pc.values())) != 3:
+        raise AnalysisError("init_states dispatches %d player kinds to %d node classes (%s); the specification knows exactly the three documented kinds" % (
+            len(pc), len(set(pc.values())), sorted(pc)))
     out = {}
     for player, role in ROLES.items():
         if player not in pc:
